@@ -109,6 +109,13 @@ func c07skipped(line []byte) ([]byte, bool) {
 func c07convert(class string, serial uint32, src [][]byte) (per []string, recs []dnsdata.MapRecord, extra []dnsdata.MapRecord, rejected bool) {
 	c := c07codec(class, serial)
 	for _, line := range src {
+		if len(line) >= bufio.MaxScanTokenSize {
+			// the parser reads lines with a bufio.Scanner: a line of 64 KiB or more is a read error for
+			// every compiler and every worker count, whatever the codec would make of it
+			per = append(per, "!")
+			rejected = true
+			continue
+		}
 		l, skip := c07skipped(line)
 		if skip {
 			per = append(per, "_")
@@ -553,7 +560,12 @@ func (g *gen) c07genFile(nLines, nNames int, reject int) []string {
 		lines[i], lines[j] = lines[j], lines[i]
 	}
 	if reject >= 0 {
-		bad := g.pick([]string{"?unknown.prefix,1.2.3.4", `+bad.loc.z0.test,1.2.3.4,,,\9z`, "%aa,not-a-cidr,ma"})
+		bad := g.pick([]string{"?unknown.prefix,1.2.3.4", `+bad.loc.z0.test,1.2.3.4,,,\9z`, "%aa,not-a-cidr,ma",
+			// a line the codec accepts but the line reader cannot take in (70 KB of text)
+			":big.z0.test,16," + strings.Repeat(`\141`, 17500)})
+		if reject >= 3 {
+			bad = ":big.z0.test,16," + strings.Repeat(`\141`, 17500)
+		}
 		pos := []int{0, len(lines) / 2, len(lines)}[reject%3]
 		lines = append(lines[:pos], append([]string{bad}, lines[pos:]...)...)
 	}
@@ -646,6 +658,9 @@ func c07gen(g *gen, tier string, w *bufio.Writer) {
 		reject := -1
 		if i%3 == 2 {
 			reject = g.intn(3)
+			if i%6 == 5 {
+				reject += 3 // the over-long line
+			}
 		}
 		lines := g.c07genFile(n, 1+g.intn(40), reject)
 		for _, class := range classes {
